@@ -106,12 +106,24 @@ func fixtures() map[string][]fixture {
 			{attrs: []*onnx.AttributeProto{aI("transA", 1), aI("transB", 1)}, inputs: func() []tensor.Tensor { return []tensor.Tensor{fxF32(3, 2), fxF32(4, 3), fxF32(4)} }}},
 		"GRU": {{attrs: []*onnx.AttributeProto{aI("hidden_size", 2)}, outputs: []string{"Y", "Y_h"}, inputs: func() []tensor.Tensor {
 			return []tensor.Tensor{fxF32(2, 2, 3), fxF32(1, 6, 3), fxF32(1, 6, 2), fxF32(1, 12), nil, fxF32(1, 2, 2)}
+		}}, {attrs: []*onnx.AttributeProto{aI("hidden_size", 2)}, outputs: []string{"Y", "Y_h"}, inputs: func() []tensor.Tensor { // a sequence of ONE step
+			return []tensor.Tensor{fxF32(1, 2, 3), fxF32(1, 6, 3), fxF32(1, 6, 2), fxF32(1, 12), nil, fxF32(1, 2, 2)}
+		}}, {attrs: []*onnx.AttributeProto{aI("hidden_size", 2)}, outputs: []string{"Y", "Y_h"}, inputs: func() []tensor.Tensor { // a batch of ONE sample
+			return []tensor.Tensor{fxF32(3, 1, 3), fxF32(1, 6, 3), fxF32(1, 6, 2), fxF32(1, 12), nil, fxF32(1, 1, 2)}
 		}}},
 		"RNN": {{attrs: []*onnx.AttributeProto{aI("hidden_size", 2)}, outputs: []string{"Y", "Y_h"}, inputs: func() []tensor.Tensor {
 			return []tensor.Tensor{fxF32(2, 2, 3), fxF32(1, 2, 3), fxF32(1, 2, 2), fxF32(1, 4), nil, fxF32(1, 2, 2)}
+		}}, {attrs: []*onnx.AttributeProto{aI("hidden_size", 2)}, outputs: []string{"Y", "Y_h"}, inputs: func() []tensor.Tensor { // a sequence of ONE step
+			return []tensor.Tensor{fxF32(1, 2, 3), fxF32(1, 2, 3), fxF32(1, 2, 2), fxF32(1, 4), nil, fxF32(1, 2, 2)}
+		}}, {attrs: []*onnx.AttributeProto{aI("hidden_size", 2)}, outputs: []string{"Y", "Y_h"}, inputs: func() []tensor.Tensor { // a batch of ONE sample
+			return []tensor.Tensor{fxF32(3, 1, 3), fxF32(1, 2, 3), fxF32(1, 2, 2), fxF32(1, 4), nil, fxF32(1, 1, 2)}
 		}}},
 		"LSTM": {{attrs: []*onnx.AttributeProto{aI("hidden_size", 2)}, outputs: []string{"Y", "Y_h", "Y_c"}, inputs: func() []tensor.Tensor {
 			return []tensor.Tensor{fxF32(2, 2, 3), fxF32(1, 8, 3), fxF32(1, 8, 2), fxF32(1, 16), nil, fxF32(1, 2, 2), fxF32(1, 2, 2), fxF32(1, 6)}
+		}}, {attrs: []*onnx.AttributeProto{aI("hidden_size", 2)}, outputs: []string{"Y", "Y_h", "Y_c"}, inputs: func() []tensor.Tensor { // a sequence of ONE step
+			return []tensor.Tensor{fxF32(1, 2, 3), fxF32(1, 8, 3), fxF32(1, 8, 2), fxF32(1, 16), nil, fxF32(1, 2, 2), fxF32(1, 2, 2), fxF32(1, 6)}
+		}}, {attrs: []*onnx.AttributeProto{aI("hidden_size", 2)}, outputs: []string{"Y", "Y_h", "Y_c"}, inputs: func() []tensor.Tensor { // a batch of ONE sample; initial_c without initial_h
+			return []tensor.Tensor{fxF32(3, 1, 3), fxF32(1, 8, 3), fxF32(1, 8, 2), fxF32(1, 16), nil, nil, fxF32(1, 1, 2)}
 		}}},
 		"LinearRegressor": {{attrs: []*onnx.AttributeProto{aFs("coefficients", 1, 2, 3, 4, 5, 6), aFs("intercepts", 1, 2), aI("targets", 2)}, inputs: func() []tensor.Tensor { return []tensor.Tensor{fxF32(2, 3)} }}},
 		"Scaler": {{attrs: []*onnx.AttributeProto{aFs("offset", 1, 2, 3), aFs("scale", 2, 2, 2)}, inputs: func() []tensor.Tensor { return []tensor.Tensor{fxF32(2, 3)} }},
